@@ -8,6 +8,7 @@ import (
 	"go/parser"
 	"go/token"
 	"go/types"
+	"regexp"
 	"sort"
 	"strings"
 
@@ -388,4 +389,66 @@ func canonTuple(b *strings.Builder, t *types.Tuple, variadic bool, tps []*types.
 		}
 	}
 	b.WriteString(")")
+}
+
+var (
+	reConstOf   = regexp.MustCompile(`\(constant [^()]*? of type ([^()]*)\)`)
+	reUntypedC  = regexp.MustCompile(`\(untyped (\w+) constant[^()]*\)`)
+	reDescr     = regexp.MustCompile(`\((variable of type|value of type|constant of type|untyped \w+ constant|untyped \w+ value|mismatched types|no value|type|overflows|truncated|built-in|missing method|comma, ok expression of type|neither addressable nor a map index expression|types from different scopes)[^()]*(\([^()]*\)[^()]*)*\)`)
+	reAsValue   = regexp.MustCompile(`as (\S+) value in ([a-z ]+)`)
+	reToType    = regexp.MustCompile(`to type (\S+)`)
+	reOperator  = regexp.MustCompile(`operator (\S+) not defined`)
+	reOverflows = regexp.MustCompile(`overflows (\S+)`)
+	reTruncTo   = regexp.MustCompile(`truncated to (\S+)`)
+	reMustBe    = regexp.MustCompile(`must be (\w+( \w+)?)`)
+	reHave      = regexp.MustCompile(`have (\([^()]*\))`)
+)
+
+// NormMsg reduces a go/types message to its category plus the operand descriptors
+// (kinds and types, never expression text or constant values), e.g.
+//
+//	cannot-use:(constant of type uint8) as int value in assignment
+//	op-not-defined:% (variable of type float64)
+func NormMsg(msg string) string {
+	cat := ErrCategory(msg)
+	m := reConstOf.ReplaceAllString(msg, "(constant of type $1)")
+	m = reUntypedC.ReplaceAllString(m, "(untyped $1 constant)")
+	var parts []string
+	if s := reOperator.FindStringSubmatch(m); s != nil {
+		parts = append(parts, s[1])
+	}
+	for _, d := range reDescr.FindAllString(m, -1) {
+		parts = append(parts, d)
+	}
+	if s := reAsValue.FindStringSubmatch(m); s != nil {
+		parts = append(parts, "as "+s[1]+" value in "+strings.TrimSpace(s[2]))
+	}
+	if s := reToType.FindStringSubmatch(m); s != nil {
+		parts = append(parts, "to type "+s[1])
+	}
+	if s := reOverflows.FindStringSubmatch(m); s != nil {
+		parts = append(parts, "overflows "+s[1])
+	}
+	if s := reTruncTo.FindStringSubmatch(m); s != nil {
+		parts = append(parts, "truncated to "+s[1])
+	}
+	if s := reMustBe.FindStringSubmatch(m); s != nil {
+		parts = append(parts, "must be "+s[1])
+	}
+	if len(parts) == 0 {
+		// keep the message words that are not expression text: drop everything that looks
+		// like an operand (contains '.', '(', digits) word by word
+		var ws []string
+		for _, w := range strings.Fields(m) {
+			if strings.ContainsAny(w, ".()[]{}0123456789\"'`<>+-*/%&|^=!,:") {
+				continue
+			}
+			ws = append(ws, w)
+		}
+		if len(ws) > 8 {
+			ws = ws[:8]
+		}
+		parts = append(parts, strings.Join(ws, " "))
+	}
+	return cat + ":" + strings.Join(parts, " ")
 }
